@@ -830,6 +830,29 @@ fn main() {
     }
     writeln!(out, "        _ => panic!(\"bad registry index\"),\n    }}\n}}").unwrap();
 
+    writeln!(out, "/// decode through the typed entry point and send through the typed framed writer `msgs::write`").unwrap();
+    writeln!(out, "pub fn typed_write(idx: usize, bytes: Vec<u8>) -> Result<Vec<u8>, String> {{\n    match idx {{").unwrap();
+    for (i, e) in entries.iter().enumerate() {
+        writeln!(
+            out,
+            "        {} => <{} as DeBolt>::from_vec(bytes).map_err(|e| format!(\"{{:?}}\", e)).and_then(|m| {{ let mut w: Vec<u8> = Vec::new(); vls_protocol::msgs::write(&mut w, m).map_err(|e| format!(\"{{:?}}\", e))?; Ok(w) }}),",
+            i, e.sname
+        )
+        .unwrap();
+    }
+    writeln!(out, "        _ => panic!(\"bad registry index\"),\n    }}\n}}").unwrap();
+    writeln!(out, "/// take a frame off a link through the typed framed reader `msgs::read_message::<T>` and encode again").unwrap();
+    writeln!(out, "pub fn typed_read(idx: usize, frame: &[u8]) -> Result<Vec<u8>, String> {{\n    let mut cur = std::io::Cursor::new(frame.to_vec());\n    match idx {{").unwrap();
+    for (i, e) in entries.iter().enumerate() {
+        writeln!(
+            out,
+            "        {} => vls_protocol::msgs::read_message::<_, {}>(&mut cur).map(|m| m.as_vec()).map_err(|e| format!(\"{{:?}}\", e)),",
+            i, e.sname
+        )
+        .unwrap();
+    }
+    writeln!(out, "        _ => panic!(\"bad registry index\"),\n    }}\n}}").unwrap();
+
     writeln!(out, "/// the streamed PSBT of a decoded request, if the message carries one").unwrap();
     writeln!(out, "pub fn streamed_ref(m: &Message) -> Option<&StreamedPSBT> {{\n    match m {{").unwrap();
     for e in entries.iter() {
